@@ -58,7 +58,7 @@ pub fn tree_case(em: &mut Emitter, mode: u8, d: &Dyn) {
 }
 
 pub fn run(em: &mut Emitter, rng: &mut Rng, thorough: bool) {
-    for _ in 0..(if thorough { 80_000 } else { 8_000 }) {
+    for _ in 0..(if thorough { 320_000 } else { 8_000 }) {
         let d = random_dyn(rng, 4, false);
         for mode in 0..3u8 { tree_case(em, mode, &d); }
     }
